@@ -1,14 +1,22 @@
 #!/bin/bash
-# usage: tools/seedtest.sh <pid> <patch> [tier]   -- apply a seeded change to /repo, run the check, undo
-pid=$1; patch=$2; tier=${3:-quick}
-cd /repo || exit 2
-if [ -n "$(git status --porcelain --untracked-files=no)" ]; then echo "/repo not clean"; exit 2; fi
-git apply "$patch" || { echo "patch does not apply"; exit 2; }
+# usage: tools/seedtest.sh <pid> <patch> [tier]
+# Runs the check for <pid> against a scratch copy of /repo's HEAD working tree with the seeded change applied
+# (HMCLAB_REPO override), so /repo itself is never touched.  The evidence file of the seeded tree is discarded.
+pid=$1; patch=$(readlink -f "$2"); tier=${3:-quick}
+S=$(mktemp -d /var/tmp/seedtest.XXXXXX)
+trap 'rm -rf "$S"' EXIT
+rsync -a --exclude .git /repo/ $S/repo/
+cd $S/repo && git init -q . && git add -A >/dev/null && git -c user.email=a@b -c user.name=x commit -qm base
+if ! git apply "$patch" 2>/dev/null; then
+  if ! git apply --3way "$patch" 2>/dev/null; then
+    if ! patch -p1 --fuzz=3 < "$patch" >/dev/null 2>&1; then echo "seed $pid: patch does not apply"; exit 2; fi
+  fi
+fi
 cd /verif
+mkdir -p .work
 cp evidence/$pid.json .work/evidence_$pid.keep 2>/dev/null
-PYTHONPATH=/repo PYTHONHASHSEED=0 /venv/bin/python check.py "$pid" --tier "$tier" > /verif/.work/seedtest_$pid.log 2>&1
+HMCLAB_REPO=$S/repo PYTHONPATH=$S/repo PYTHONHASHSEED=0 /venv/bin/python check.py "$pid" --tier "$tier" > /verif/.work/seedtest_$pid.log 2>&1
 rc=$?
-git -C /repo reset -q --hard
-cp .work/evidence_$pid.keep evidence/$pid.json 2>/dev/null   # evidence of the seeded tree is not evidence
-echo "seed $pid: check exit $rc"; grep -E "^VIOLATION|^KNOWN" /verif/.work/seedtest_$pid.log | head -5
+cp .work/evidence_$pid.keep evidence/$pid.json 2>/dev/null
+echo "seed $pid: check exit $rc"; grep -E "^VIOLATION|^KNOWN" /verif/.work/seedtest_$pid.log | cut -c1-300 | head -5
 exit 0
